@@ -270,14 +270,17 @@ def run(ctx):
                 "sequence) x configurations {in-process app, app behind gzip, requests session on a WSGI adapter, "
                 "the same with gzip, CachedSession, saved .dods file, open_dods_url x {app, gzip, requests, requests+gzip, "
                 "1-byte chunks}, open_url behind a re-chunking hop x {1-byte, boundary before the last byte, random, "
-                "gzip+1-byte}}; a family whose last variable makes the decoder's final read zero-length; a dataset is non-trivial when it has an array, "
+                "gzip+1-byte}}; a family whose last variable makes the decoder's final read zero-length; (value, representation) pairs as in C05 (dtype char, byte order, layout, scalar forms, str/bytes), each read back through the client; a dataset is non-trivial when it has an array, "
                 "a container or a sequence; distinct by (declaration, data)")
     ctx.assumptions = ["gzip.decompress(gzip.compress(b)) = b (hypothesis of C01_transport, exercised by the oracle)",
                        "webob/requests/requests_cache plumbing, file I/O and the DDS text round trip (C07) are "
                        "outside the theorems: covered by the oracle only"]
     ctx.proof_phase()
     explore(ctx, ctx.tier)
-    return ctx.finish(search=lambda c: explore(c, "thorough", search=True),
+    from props import c05_rep
+    c05_rep.explore(ctx, "representations", ctx.budget(120, 2000), client=True)
+    return ctx.finish(search=lambda c: (explore(c, "thorough", search=True),
+                                        c05_rep.explore(c, "representations-search", 1500, client=True)),
                       witnesses={"C01.lazy_type_peek": witness_lazy})
 
 
@@ -287,6 +290,9 @@ def replay(payload):
         print("nothing to replay: %s" % payload.get("no_longer_checks"))
         return False
     c = f["case"]
+    if "obj" in c or "cells" in c or "reps" in c or "recarray" in c:
+        from props import c05_rep
+        return c05_rep.replay_case(c)
     t = B.unpack_t(c["tmpl"])
     d = B.unpack_d(t, c["data"])
     fails = judge(t, d, c.get("config", "app"))
